@@ -23,14 +23,14 @@ from . import c06_lib as L
 from .common import plist, frac, VERIF, LEAN
 
 THEOREMS = [
-    'Pyiga.Props.C06.at_sound', 'Pyiga.Props.C06.literal_sound', 'Pyiga.Props.C06.literal_tree_sound', 'Pyiga.Props.C06.transpose_sound',
+    'Pyiga.Props.C06.at_sound', 'Pyiga.Props.C06.literal_sound', 'Pyiga.Props.C06.literal_tree_sound', 'Pyiga.Props.C06.broadcast_sound', 'Pyiga.Props.C06.inner_tr_sound', 'Pyiga.Props.C06.slices_sound', 'Pyiga.Props.C06.transpose_sound',
     'Pyiga.Props.C06.fold_constants_sound', 'Pyiga.Props.C06.dx_sound',
     'Pyiga.Props.C06.key_sound', 'Pyiga.Props.C06.cse_sound', 'Pyiga.Props.C06.inline_sound',
     'Pyiga.Props.C06.vec_subst_sound',
     'Pyiga.Props.C06.schedule_sound', 'Pyiga.Props.C06.defBeforeUse_sound', 'Pyiga.Props.C06.slp_perm_sound',
-    'Pyiga.Props.C06.chain_rule_first_order', 'Pyiga.Props.C06.chain_rule_second_order',
+    'Pyiga.Props.C06.phys_to_para_partial', 'Pyiga.Props.C06.chain_rule_first_order', 'Pyiga.Props.C06.chain_rule_second_order',
 ]
-MODULES = ['Pyiga.Model.VForm', 'Pyiga.Model.SLP', 'Pyiga.Proofs.VForm', 'Pyiga.Proofs.VFormAlg', 'Pyiga.Proofs.VFormKey', 'Pyiga.Proofs.SLP', 'Pyiga.Props.C06']
+MODULES = ['Pyiga.Model.VForm', 'Pyiga.Model.SLP', 'Pyiga.Proofs.VForm', 'Pyiga.Proofs.VFormAlg', 'Pyiga.Proofs.VFormKey', 'Pyiga.Proofs.VFormPhys', 'Pyiga.Model.VFormPhys', 'Pyiga.Proofs.SLP', 'Pyiga.Props.C06']
 
 
 # ----------------------------------------------------------------------------- helpers
@@ -490,6 +490,20 @@ def synth_stream(ctx, add, n):
             ctx.count('synth-generator-error:' + type(ex).__name__)
 
 
+def phys1_stream(ctx, add):
+    """replace_physical_derivs on a first physical derivative of a basis function, all dims / directions"""
+    from pyiga import vform as V
+    for dim in (1, 2, 3):
+        for which in (0, 1):
+            for k in range(dim):
+                vf = V.VForm(dim)
+                bfs = vf.basisfuns()
+                e = V.Dx(bfs[which], k)
+                bf = vf.basis_funs[which]
+                add('phys1 %d %s %d' % (dim, L.ser_bf(bf), k), guarded(lambda: L.ser(vf.replace_physical_derivs(e))), ('phys1', dim, which, k))
+                ctx.count('synth:phys1')
+
+
 # ----------------------------------------------------------------------------- model-free search
 def dual_eval(w, e, k, par, store=None):
     """(value, derivative wrt direction k [parametric or physical]) by dual numbers over Fractions"""
@@ -716,6 +730,7 @@ def run(ctx):
     import time as _t
     t0 = _t.time()
     synth_stream(ctx, add, nsynth)
+    phys1_stream(ctx, add)
     ctx.extra['t_synth'] = round(_t.time() - t0, 1); t0 = _t.time()
 
     import multiprocessing as mp
